@@ -44,7 +44,7 @@ def run_solver(P, footprint, analytic, halo="given", precision="double", ctx="ge
     fn = P.function("bldfm.solver", "steady_state_transport_solver")
     kwargs = dict(srf_flx=S.srf_flx, z=S.z, profiles=S.profiles, domain=S.domain, levels=S.levels,
                   modes=S.modes, meas_pt=S.meas_pt, srf_bg_conc=S.p000, footprint=footprint,
-                  analytic=analytic, halo=(S.halo if halo == "given" else None), precision=precision, cache=cache)
+                  analytic=analytic, halo=(S.halo if halo == "given" else alg.ZERO if halo == "zero" else None), precision=precision, cache=cache)
 
     if facts is None:
         facts = Facts()
